@@ -345,7 +345,7 @@ func main() {
 		return
 	}
 	run := report.New("C20", "exploration")
-	run.Rule("(A) a child process running the checker over hostile location strings (path traversal, encoded separators, NUL, backslashes, 4 KiB paths, unicode, query/fragment, mixed schemes; configured files with awkward names) incl. loads, refreshes, failures, restart and cleanup is traced with strace -f -y; every successful mutating path syscall must resolve inside work_dir (or the child's report directory), decoy siblings and inputs must hash the same before and after; (B) one store directory per distinct location, and after a restart the same directories with zero origin hits; (C) histories over {load ok, load fail (garbage, HTTP 500, bad signature), refresh ok, refresh fail, restart with planted crl_*_tmp leftovers} with foreign files present: after every event no crl_*_tmp entry, no live store lost, foreign files intact; (D) k provision/cleanup cycles: no goroutine with a repository frame, no descriptor under work_dir, work_dir can be provisioned again, counts constant. non-trivial = sub-check that observed at least one mutating syscall / store directory / event; distinct = sub-check descriptor")
+	run.Rule("(A) a child process running the checker over hostile location strings (path traversal, encoded separators, NUL, backslashes, 4 KiB paths, unicode, query/fragment, mixed schemes; configured files with awkward names) incl. loads, refreshes, failures, restart and cleanup is traced with strace -f -y; every successful mutating path syscall must resolve inside work_dir (or the child's report directory), decoy siblings and inputs must hash the same before and after; (B) one store directory per distinct location, and after a restart the same directories with zero origin hits; (C) histories over {load ok, load fail (garbage, HTTP 500, bad signature), refresh ok, refresh fail, restart with planted crl_*_tmp leftovers} with foreign files present: after every event no crl_*_tmp entry, no live store lost, foreign files intact; (C)(D)(E) run with work_dir spelt in five ways (plain, trailing slash, dot segment, doubled slash, symbolic link); (D) k provision/cleanup cycles: no goroutine with a repository frame, no descriptor under work_dir, work_dir can be provisioned again, counts constant. non-trivial = sub-check that observed at least one mutating syscall / store directory / event; distinct = sub-check descriptor")
 	run.Assume("strace sees every path syscall of the traced process tree (-f) with resolved descriptors (-y)", "after Cleanup goroutines are given up to 3 s to drain before they count as leaked")
 	scratch, _ := report.Scratch("C20")
 	bin := os.Getenv("VERIF_ENGINE_BIN_NORACE")
@@ -520,11 +520,13 @@ func main() {
 		for n, c := range foreign {
 			_ = os.WriteFile(filepath.Join(wd, n), []byte(c), 0644)
 		}
-		chk, err := l2.Start(l2.Opts{WorkDir: wd, Storage: backend, SigMode: "verify", Fetch: "actively"})
+		wdForm := wdForms[(hi/2)%len(wdForms)]
+		chk, err := l2.Start(l2.Opts{WorkDir: spell(wd, wdForm), Storage: backend, SigMode: "verify", Fetch: "actively"})
 		if err != nil {
-			run.Violation("lifecycle.provision-failed", err.Error(), nil)
+			run.Violation("lifecycle.provision-failed", "work_dir form "+wdForm+": "+err.Error(), nil)
 			continue
 		}
+		run.Distinct("work_dir_forms", wdForm)
 		var hist []string
 		loadedPaths := map[string]bool{}
 		liveDirs := map[string]bool{}
@@ -638,8 +640,9 @@ func main() {
 	for _, backend := range []string{"disk", "memory"} {
 		wd := filepath.Join(scratch, "wdE-"+backend)
 		_ = os.MkdirAll(wd, 0755)
-		opts := l2.Opts{WorkDir: wd, Storage: backend, SigMode: "verify", Fetch: "actively"}
-		desc := "work_dir ownership backend=" + backend
+		wdForm := map[string]string{"disk": "trailing-slash", "memory": "dot-segment"}[backend]
+		opts := l2.Opts{WorkDir: spell(wd, wdForm), Storage: backend, SigMode: "verify", Fetch: "actively"}
+		desc := "work_dir ownership backend=" + backend + " work_dir-form=" + wdForm
 		run.Eval(1)
 		a, err := l2.Start(opts)
 		if err != nil {
@@ -683,14 +686,23 @@ func main() {
 	if run.Thorough() {
 		cycles = 200
 	}
-	for _, backend := range []string{"disk", "memory"} {
-		wd := filepath.Join(scratch, "wdD-"+backend)
+	fullCycles := cycles
+	for di, dc := range []struct {
+		backend, form string
+		short         bool
+	}{{"disk", "plain", false}, {"memory", "trailing-slash", false}, {"disk", "trailing-slash", true}, {"disk", "symbolic-link", true}, {"memory", "dot-segment", true}, {"disk", "doubled-slash", true}} {
+		backend := dc.backend
+		cycles := fullCycles
+		if dc.short {
+			cycles = 4
+		}
+		wd := filepath.Join(scratch, fmt.Sprintf("wdD%d-%s", di, backend))
 		_ = os.MkdirAll(wd, 0755)
 		cfgFile := filepath.Join(scratch, "cfgD.crl")
 		_ = os.WriteFile(cfgFile, good(10), 0644)
-		opts := l2.Opts{WorkDir: wd, Storage: backend, SigMode: "verify", Fetch: "actively", Interval: 50 * time.Millisecond, CRLFiles: []string{cfgFile}, CRLUrls: []string{w.CRL.URL("/d.crl")}, Trusted: []*x509.Certificate{w.Int.Cert}}
+		opts := l2.Opts{WorkDir: spell(wd, dc.form), Storage: backend, SigMode: "verify", Fetch: "actively", Interval: 50 * time.Millisecond, CRLFiles: []string{cfgFile}, CRLUrls: []string{w.CRL.URL("/d.crl")}, Trusted: []*x509.Certificate{w.Int.Cert}}
 		var g0, f0 int
-		desc := "cycles backend=" + backend
+		desc := "cycles backend=" + backend + " work_dir-form=" + dc.form
 		ok := true
 		for k := 0; k < cycles && ok; k++ {
 			chk, err := l2.Start(opts)
@@ -735,6 +747,26 @@ func main() {
 	}
 	run.Finish(10)
 }
+
+// spell returns a configured work_dir value naming the existing directory real in another way.
+func spell(real, form string) string {
+	switch form {
+	case "trailing-slash":
+		return real + "/"
+	case "dot-segment":
+		return filepath.Dir(real) + "/./" + filepath.Base(real)
+	case "doubled-slash":
+		return filepath.Dir(real) + "//" + filepath.Base(real)
+	case "symbolic-link":
+		link := real + "-link"
+		_ = os.Remove(link)
+		_ = os.Symlink(filepath.Base(real), link)
+		return link
+	}
+	return real
+}
+
+var wdForms = []string{"plain", "trailing-slash", "symbolic-link", "dot-segment", "doubled-slash"}
 
 func trunc(s string, n int) string {
 	if len(s) > n {
